@@ -445,7 +445,7 @@ func elemPool(rng *rand.Rand, n int, asciiOnly bool) [][]byte {
 	// special shapes first, in random order (the pool may be smaller than their number)
 	var special [][]byte
 	if !asciiOnly {
-		special = [][]byte{{}, {0}, {0xff, 0xfe, 0x00, 0x80}, []byte("\xc3\x28 bad utf8"),
+		special = [][]byte{nil, {0}, {0xff, 0xfe, 0x00, 0x80}, []byte("\xc3\x28 bad utf8"),
 			randBytes(rng, 15), randBytes(rng, 16), randBytes(rng, 17), randBytes(rng, 33), randBytes(rng, 64),
 			// longer than any fixed-size scratch buffer an implementation might copy keys into
 			randBytes(rng, 127), randBytes(rng, 128), randBytes(rng, 129), randBytes(rng, 300), randBytes(rng, 5000),
